@@ -245,7 +245,8 @@ def run(tier, seed, only=None):
     else:
         deep = exprgen.random_deep(atoms, 3, 8000, rng, ext=True) + exprgen.random_deep(atoms, 4, 3000, rng, ext=True)
     seen = set(); exprs = []
-    for e in l1 + l2 + deep:
+    wide = [w for w in exprgen.wide(('a', 'b', 'c')) if 'x' not in w.replace('xor', '')]      # (the closure forms name the loop variable of C03's templates)
+    for e in l1 + wide + l2 + deep:
         if e in seen: continue
         seen.add(e)
         try: ast.parse(e, mode='eval')
